@@ -21,7 +21,7 @@ cd "$SRC/harness" || exit 2
 go build -modfile="$TP/h.mod" -tags verif -ldflags=-checklinkname=0 -o "$TP/root/bin/vcheck" ./cmd/vcheck > "$TP/build.log" 2>&1 || { echo "BUILD FAILED"; tail -20 "$TP/build.log"; exit 2; }
 for id in "$@"; do
   case "$id" in C12|C14|C17|C20) go build -modfile="$TP/h.mod" -race -tags verif -ldflags=-checklinkname=0 -o "$TP/root/bin/vcheck-race" ./cmd/vcheck > "$TP/build.log" 2>&1 || { echo "BUILD FAILED (race)"; exit 2; } ;; esac
-  case "$id" in C02|C03|C04|C06|C09|C11|C12|C14|C16) (cd "$TP/repo" && go build -ldflags=-checklinkname=0 -o "$TP/root/bin/kvass" ./cmd/kvass) > "$TP/build.log" 2>&1 || { echo "BUILD FAILED (kvass)"; exit 2; } ;; esac
+  case "$id" in C01|C02|C03|C04|C06|C09|C11|C12|C14|C16|C20) (cd "$TP/repo" && go build -ldflags=-checklinkname=0 -o "$TP/root/bin/kvass" ./cmd/kvass) > "$TP/build.log" 2>&1 || { echo "BUILD FAILED (kvass)"; exit 2; } ;; esac
   out=$(cd "$TP/root" && VERIF_ROOT="$TP/root" "$TP/root/bin/vcheck" run "$id" --tier "$TIER" --seed "${VERIF_SEED:-1}" 2>&1)
   rc=$?
   echo "== $id exit=$rc"
